@@ -2,6 +2,7 @@ import PyPhysim.Proofs.C09Example
 import PyPhysim.Proofs.C09Noise
 import PyPhysim.Proofs.C09Scale
 import PyPhysim.Proofs.C09Metric
+import PyPhysim.Proofs.C09Rank
 
 /-!
 # C09 — block diagonalisation nulls inter-user interference within the power budget
@@ -28,7 +29,12 @@ hypotheses (checked numerically by the harness on every case it runs):
 * `G` — `np.linalg.inv(Pᴴ P)`, `vals` — the metric function: no contract needed;
 * the reduction matrix `P` of `_calc_stream_reduction_matrix`: contract
   `Re_k · P = σ² · P` ("enough streams are sacrificed": `P` lies in the noise
-  eigenspace, equivalently `E_kᴴ P = 0`, theorem `noise_eigenspace_iff`).
+  eigenspace, equivalently `E_kᴴ P = 0`, theorem `noise_eigenspace_iff`).  For the
+  matrix the code computes (the `n` least right singular vectors of `Re_k`) this
+  contract is a THEOREM (`least_singular_vectors_in_noise_space`) as soon as
+  `n ≤ N − rank E_k` and `np.linalg.svd` keeps its promise (`Re_k = U·diag(S)·V_H`,
+  `U`, `V_H` unitary, `S ≥ 0` in decreasing order); `ext_noise_eigenspace` and
+  `enough_streams_sacrificed` give the rank-counting argument itself.
 
 `Hinv` with `Hinv · H = 1` expresses that the channel has full rank.
 -/
@@ -336,6 +342,137 @@ theorem stream_counts_match_decide (hN : 0 < N) (iPu : ℝ) (Hk : Mat ℂ N T) (
     rw [← hi]; exact i.isLt
 
 end enhanced
+
+/-! ## the rank-counting argument behind "enough streams are sacrificed" -/
+section rank
+open Matrix
+variable {N n r s T : Nat}
+
+/-- `ext_noise_eigenspace`: for `Re = pe·E Eᴴ + σ²·1` (`N` antennas, `E` the `N × r` channel of
+    the external interference)
+    * every vector orthogonal to the interference (`Eᴴ v = 0`) is an eigenvector for `σ²` — for
+      every `pe`, in particular for `pe ≥ 0`;
+    * these vectors form a space of dimension exactly `N − rank E` (rank–nullity);
+    * for `pe ≠ 0` (in particular `pe > 0`) there are no other eigenvectors for `σ²`
+      (`vᴴ E Eᴴ v = ‖Eᴴ v‖² = 0`). -/
+theorem ext_noise_eigenspace (pe nv : ℝ) (E : Mat ℂ N r) :
+    (∀ v : Fin N → ℂ, (toM E)ᴴ *ᵥ v = 0 → toM (covExtInt pe nv E) *ᵥ v = (nv : ℂ) • v) ∧
+    Module.finrank ℂ (LinearMap.ker (toM E)ᴴ.mulVecLin) + (toM E).rank = N ∧
+    N - (toM E).rank ≤ Module.finrank ℂ (LinearMap.ker (toM E)ᴴ.mulVecLin) ∧
+    (pe ≠ 0 → ∀ v : Fin N → ℂ, toM (covExtInt pe nv E) *ᵥ v = (nv : ℂ) • v → (toM E)ᴴ *ᵥ v = 0) := by
+  have hfin := Pf.finrank_ker_conjTranspose (toM E)
+  refine ⟨fun v hv => ?_, hfin, by omega, fun hpe v hv => ?_⟩
+  · rw [Pf.toM_covExtInt]; exact Pf.extCov_mulVec_of_ker _ _ _ v hv
+  · rw [Pf.toM_covExtInt] at hv
+    exact Pf.ker_of_extCov_mulVec _ _ (by exact_mod_cast hpe) _ v hv
+
+/-- `enough_streams_sacrificed`: if `n ≤ N − rank E` there is an `N × n` matrix `P` with orthonormal
+    columns inside the noise eigenspace (`Pᴴ P = 1`, `Eᴴ P = 0`, `Re P = σ² P`) — the choice "the `n`
+    least right singular vectors of `Re`" CAN be made inside that space —, and for ANY `P` with
+    `Re P = σ² P` and any `M` the filter `W = M Pᴴ` has only noise at its output,
+    `W Re Wᴴ = σ² W Wᴴ`, and (for `pe ≠ 0`) annihilates the interference channel, `W E = 0`
+    (the receive filter of `enhancedReduced` is of this form: `ext_int_removed`). -/
+theorem enough_streams_sacrificed (pe nv : ℝ) (E : Mat ℂ N r) (hn : n ≤ N - (toM E).rank) :
+    (∃ P : Mat ℂ N n, matMul (cT P) P = eye ∧ matMul (cT E) P = (fun _ _ => 0) ∧
+      matMul (covExtInt pe nv E) P = fun i j => Cx.ofReal nv * P i j) ∧
+    ∀ (P : Mat ℂ N n) (M : Mat ℂ s n), matMul (covExtInt pe nv E) P = (fun i j => Cx.ofReal nv * P i j) →
+      (matMul (matMul M (cT P)) (matMul (covExtInt pe nv E) (cT (matMul M (cT P)))) =
+        fun i j => Cx.ofReal nv * matMul (matMul M (cT P)) (cT (matMul M (cT P))) i j) ∧
+      (pe ≠ 0 → matMul (matMul M (cT P)) E = fun _ _ => 0) :=
+  ⟨Pf.exists_reduction_in_noise_space pe nv E hn, fun P M hP =>
+    ⟨Pf.filter_cov_noise_only pe nv E P M hP, fun hpe =>
+      Pf.filter_kills_ext E P M ((Pf.noise_eigenspace_iff pe nv hpe E P).mp hP)⟩⟩
+
+/-- "enough" is exact: for `pe ≠ 0` a matrix with `n` orthonormal columns inside the noise eigenspace
+    exists IF AND ONLY IF `n ≤ N − rank E` — keeping more streams than that necessarily leaves
+    external interference at the filter output -/
+theorem enough_streams_iff (pe nv : ℝ) (hpe : pe ≠ 0) (E : Mat ℂ N r) :
+    (∃ P : Mat ℂ N n, matMul (cT P) P = eye ∧
+      matMul (covExtInt pe nv E) P = fun i j => Cx.ofReal nv * P i j) ↔ n ≤ N - (toM E).rank :=
+  ⟨fun ⟨P, h1, h2⟩ => Pf.room_of_reduction_in_noise_space pe nv hpe E P h1 h2,
+    fun h => let ⟨P, h1, _, h3⟩ := Pf.exists_reduction_in_noise_space pe nv E h; ⟨P, h1, h3⟩⟩
+
+/-- `least_singular_vectors_in_noise_space`: the contract hypothesis "the `n` smallest singular
+    values of `Re_k` equal the noise variance" (`hS` of `reduction_in_noise_eigenspace`) and with it
+    the noise-eigenspace contract `Re_k P = σ² P` of the matrix `P` computed by
+    `_calc_stream_reduction_matrix` are CONSEQUENCES of `n ≤ N − rank E` and of what
+    `np.linalg.svd` promises: `Re_k = U·diag(S)·V_H`, `U` and `V_H` unitary, the singular values
+    non-negative and in decreasing order.  (`Re_k ⪰ σ²·1`, so no singular value is below `σ²`;
+    `Re_k² − σ⁴·1 = E·(…)` has rank `≤ rank E`, so at most `rank E` singular values differ from `σ²`;
+    sorted, the last `N − rank E` equal `σ²`.) -/
+theorem least_singular_vectors_in_noise_space (pe nv : ℝ) (hpe : 0 ≤ pe) (hnv : 0 < nv) (E : Mat ℂ N r)
+    (U VHre : Mat ℂ N N) (S : Fin N → ℝ) (hn : n ≤ N)
+    (hsvd : covExtInt pe nv E = matMul (matMul U (diagM (fun i => Cx.ofReal (S i)))) VHre)
+    (hU : matMul (cT U) U = eye) (hV : matMul VHre (cT VHre) = eye)
+    (hS0 : ∀ i, 0 ≤ S i) (hsort : ∀ i j : Fin N, i ≤ j → S j ≤ S i)
+    (hrank : n ≤ N - (toM E).rank) :
+    (∀ j : Fin n, S (revIdx hn j) = nv) ∧
+    matMul (cT (reductionMatrix VHre n hn)) (reductionMatrix VHre n hn) = eye ∧
+    matMul (covExtInt pe nv E) (reductionMatrix VHre n hn) =
+      (fun i j => Cx.ofReal nv * reductionMatrix VHre n hn i j) ∧
+    (pe ≠ 0 → matMul (cT E) (reductionMatrix VHre n hn) = fun _ _ => 0) := by
+  have hS := Pf.least_singular_eq_noise_model pe nv hpe hnv.le E U VHre S hn hsvd hU hV hS0 hsort hrank
+  have hP := Pf.leastCols_noise_eigenspace pe nv hpe hnv E U VHre S hn hsvd hU hV hS
+  exact ⟨hS, Pf.leastCols_orthonormal VHre hn hV, hP, fun h0 => (Pf.noise_eigenspace_iff pe nv h0 E _).mp hP⟩
+
+/-- end to end for the `fixed` metric of `EnhancedBD`: with `n ≤ N − rank E_k` kept streams and a
+    correct SVD of `Re_k`, the receive filter computed from the `n` least right singular vectors
+    annihilates the interference channel and leaves the noise alone — no per-case hypothesis on the
+    singular values is left -/
+theorem enough_streams_ext_int_removed (iPu pe nv : ℝ) (hpe : 0 < pe) (hnv : 0 < nv) (E : Mat ℂ N r)
+    (U VHre : Mat ℂ N N) (S : Fin N → ℝ) (hn : n ≤ N)
+    (hsvd : covExtInt pe nv E = matMul (matMul U (diagM (fun i => Cx.ofReal (S i)))) VHre)
+    (hU : matMul (cT U) U = eye) (hV : matMul VHre (cT VHre) = eye)
+    (hS0 : ∀ i, 0 ≤ S i) (hsort : ∀ i j : Fin N, i ≤ j → S j ≤ S i)
+    (hrank : n ≤ N - (toM E).rank)
+    (Hk : Mat ℂ N T) (Msk : Mat ℂ T N) (G : Mat ℂ n n) (Wp : Mat ℂ n N) :
+    matMul (enhancedReduced iPu Hk Msk n (reductionMatrix VHre n hn) G Wp).W E = (fun _ _ => 0) ∧
+    matMul (enhancedReduced iPu Hk Msk n (reductionMatrix VHre n hn) G Wp).W
+        (matMul (covExtInt pe nv E) (cT (enhancedReduced iPu Hk Msk n (reductionMatrix VHre n hn) G Wp).W)) =
+      fun i j => Cx.ofReal nv * matMul (enhancedReduced iPu Hk Msk n (reductionMatrix VHre n hn) G Wp).W
+        (cT (enhancedReduced iPu Hk Msk n (reductionMatrix VHre n hn) G Wp).W) i j :=
+  ext_int_removed iPu pe nv hpe.ne' E Hk Msk _ G Wp
+    (least_singular_vectors_in_noise_space pe nv hpe.le hnv E U VHre S hn hsvd hU hV hS0 hsort hrank).2.2.1
+
+/-- the SVD contract of `least_singular_vectors_in_noise_space` is satisfiable for EVERY interference
+    channel, interference power `pe ≥ 0` and noise variance `σ² ≥ 0` (spectral decomposition of the
+    positive semidefinite `Re_k`, eigenvalues sorted): the theorem is nowhere vacuous, and a correct
+    `np.linalg.svd` can always deliver what the contract asks -/
+theorem svd_contract_satisfiable (pe nv : ℝ) (hpe : 0 ≤ pe) (hnv : 0 ≤ nv) (E : Mat ℂ N r) :
+    ∃ (U VHre : Mat ℂ N N) (S : Fin N → ℝ),
+      covExtInt pe nv E = matMul (matMul U (diagM (fun i => Cx.ofReal (S i)))) VHre ∧
+      matMul (cT U) U = eye ∧ matMul VHre (cT VHre) = eye ∧ (∀ i, 0 ≤ S i) ∧
+      ∀ i j : Fin N, i ≤ j → S j ≤ S i :=
+  Pf.exists_sorted_svd_model pe nv hpe hnv E
+
+/-- the ordering clause of the SVD contract is NEEDED (the code takes the LAST `n` rows of `V_H`
+    "since the SVD gives the values in descending order"): with the interferer on the last antenna,
+    `Re = 1·diag(σ², σ², 4pe + σ²)·1` is a factorisation with unitary factors and non-negative
+    values, `n = 2 ≤ 3 − rank E`, and yet the last singular value is not the noise variance -/
+theorem sorted_order_needed (pe nv : ℝ) (hpe : 0 < pe) (hnv : 0 < nv) :
+    ∃ (E : Mat ℂ 3 1) (U VHre : Mat ℂ 3 3) (S : Fin 3 → ℝ),
+      covExtInt pe nv E = matMul (matMul U (diagM (fun i => Cx.ofReal (S i)))) VHre ∧
+      matMul (cT U) U = eye ∧ matMul VHre (cT VHre) = eye ∧ (∀ i, 0 ≤ S i) ∧ 2 ≤ 3 - (toM E).rank ∧
+      ¬ ∀ j : Fin 2, S (revIdx (by norm_num : 2 ≤ 3) j) = nv :=
+  ⟨Pf.Ex3.E', eye, eye, Pf.Ex3.S' pe nv, Pf.Ex3.svd' pe nv, Pf.Ex3.unitary.1, Pf.Ex3.unitary.2,
+    Pf.Ex3.S'_nonneg pe nv hpe.le hnv.le, Pf.Ex3.two_streams', fun h => Pf.Ex3.S'_last pe nv hpe (h 0)⟩
+
+/-- non-vacuity (`N = 3` antennas, one interferer `E = (2i, 0, 0)ᵀ`, `n = 2` streams kept): every
+    hypothesis of `least_singular_vectors_in_noise_space` / `enough_streams_ext_int_removed` is
+    satisfied, for every `pe ≥ 0` and `σ² > 0`, by `Re = 1·diag(4pe + σ², σ², σ²)·1` -/
+example (pe nv : ℝ) (hpe : 0 ≤ pe) (hnv : 0 < nv) :
+    ∃ (E : Mat ℂ 3 1) (U VHre : Mat ℂ 3 3) (S : Fin 3 → ℝ),
+      covExtInt pe nv E = matMul (matMul U (diagM (fun i => Cx.ofReal (S i)))) VHre ∧
+      matMul (cT U) U = eye ∧ matMul VHre (cT VHre) = eye ∧ (∀ i, 0 ≤ S i) ∧
+      (∀ i j : Fin 3, i ≤ j → S j ≤ S i) ∧ 2 ≤ 3 - (toM E).rank :=
+  ⟨Pf.Ex3.E, eye, eye, Pf.Ex3.S pe nv, Pf.Ex3.svd pe nv, Pf.Ex3.unitary.1, Pf.Ex3.unitary.2,
+    Pf.Ex3.S_nonneg pe nv hpe hnv.le, Pf.Ex3.S_sorted pe nv hpe, Pf.Ex3.two_streams⟩
+
+/-- … and of `enough_streams_sacrificed`: one interferer on three antennas leaves room for `n ≤ 2` streams -/
+example : (1 ≤ 3 - (toM Pf.Ex3.E).rank) ∧ (2 ≤ 3 - (toM Pf.Ex3.E).rank) :=
+  ⟨le_trans (by norm_num) Pf.Ex3.two_streams, Pf.Ex3.two_streams⟩
+
+end rank
 
 /-! ## robustness: value semantics, rejected calls, long-lived objects -/
 section robustness
